@@ -122,6 +122,7 @@ fn oracle(run: &Run) -> Vec<String> {
             Closer::Drain => reasons.push(format!("{:?}", Some("Drained".to_string()))),
             Closer::None | Closer::Abort(_) => reasons.push(format!("{:?}", Some("end-of-scenario".to_string()))),
             Closer::Kill | Closer::TwoKillers => {}
+            Closer::StopAfterChild => reasons.push(format!("{:?}", Some("after-child".to_string()))),
             Closer::TwoStoppers => {
                 reasons.push(format!("{:?}", Some("first".to_string())));
                 reasons.push(format!("{:?}", Some("second".to_string())));
